@@ -156,6 +156,13 @@ def run_unit(modname, tier, unit_name, seed):
             res['replayed'] += 1
             sym_failed = sorted(f.name for f in ctx.failed)
             same = (r['outcome'] == outcome and r['covers'] == sorted(ctx.covers) and not r['aborted'])
+            symnames = set(f.name for f in ctx.failed)
+            for x in r['failed']:
+                if x['name'] not in symnames and not r['aborted']:
+                    # witness obligation (text rendering) failed on this path's model: observed concretely
+                    res['violations'].append({'unit': unit_name, 'check': x['name'], 'sig': x['sig'], 'info': x['info'],
+                                              'inputs': values, 'reproduced': True, 'witness': True,
+                                              'concrete': {'outcome': r['outcome'], 'failed': r['failed'], 'exc': r.get('exc')}})
             if not same and not eng.sample_dependent:
                 res['divergences'].append({'unit': unit_name, 'inputs': values, 'symbolic': outcome, 'concrete': r['outcome'],
                                            'sym_covers': sorted(ctx.covers), 'conc_covers': r['covers'], 'trace': r.get('exc') or tb})
@@ -232,8 +239,8 @@ class _Monitor:
 
     def _cb(self, code, offset):
         fn = code.co_filename
-        if '/repo/src/exabgp/' in fn:
-            self.funcs.add('%s:%s' % (fn.split('/repo/src/exabgp/')[1], code.co_qualname))
+        if '/src/exabgp/' in fn:
+            self.funcs.add('%s:%s' % (fn.split('/src/exabgp/')[1], code.co_qualname))
         return sys.monitoring.DISABLE
 
     def stop(self):
